@@ -90,7 +90,13 @@ static unsigned int svf_parse_flags(unsigned int in_flags, const char* mod) {
             }
             if (adding) in_flags |= f; else in_flags &= ~f;
             j = 0;
-        } else buf[j++] = mod[i];
+        } else {
+            if (j + 1 >= sizeof(buf)) {
+                fprintf(stderr, "svf_parse_flags(): verification flag name too long near %.16s...\n", &mod[i - j]);
+                exit(1);
+            }
+            buf[j++] = mod[i];
+        }
     }
     return in_flags;
 }
